@@ -52,11 +52,16 @@ func detachedContextsAreEnumerated(c *core.Ctx) {
 					continue
 				}
 				cal := call.Call.StaticCallee()
-				if cal == nil || cal.Pkg == nil || cal.Pkg.Pkg.Path() != "context" || (cal.Name() != "Background" && cal.Name() != "TODO") {
+				// WithoutCancel keeps the values of its parent but not its
+				// cancellation: for what runs under it, the evaluation never ends
+				if cal == nil || cal.Pkg == nil || cal.Pkg.Pkg.Path() != "context" || (cal.Name() != "Background" && cal.Name() != "TODO" && cal.Name() != "WithoutCancel") {
 					continue
 				}
 				n++
 				name := core.SSAName(fn)
+				if cal.Name() == "WithoutCancel" {
+					name += "|WithoutCancel"
+				}
 				why, ok := detachedContextAllowed[name]
 				if ok {
 					c.Pass(name+"|detached-context", p.Pos(call.Pos()), "listed: "+why)
